@@ -9,6 +9,7 @@ CONSTANT AdminSet <- Adm1
 CONSTANT MaxSetFn = 1000000
 CONSTANT MaxRuns = 1000000
 CONSTANT MaxWrites = 1000000
+CONSTANT Observe = TRUE
 CONSTANT Dev <- AsBuilt
 SPECIFICATION CSpec
 CONSTRAINT Progress
